@@ -8,7 +8,7 @@ def _run(seed):
     if seed % 2 == 1:
         drivers.deep_book_history(seed)
         return
-    tick = {0: 0.5, 5: 0.25, 10: 0.125, 15: 2.5}.get(seed % 20, 1.0)        # power-of-two ticks are checked exactly (C19); 2.5 has a two-digit mantissa
+    tick = {0: 0.5, 4: 0.25, 10: 0.125, 14: 2.5}.get(seed % 20, 1.0)  # even residues: odd seeds run the deep-book driver        # power-of-two ticks are checked exactly (C19); 2.5 has a two-digit mantissa
     m, _events = drivers.market_history(seed, offgrid=(seed % 3 == 0 or tick not in (0.5, 1.0)), tick=tick)
     range_queries(m)
 
